@@ -366,8 +366,30 @@ structure KeyOnly (g : Inv → Inv) : Prop where
   parkedKids : ∀ i, (g i).parkedKids = i.parkedKids
   prio : ∀ i, (g i).prio = i.prio
 
-theorem rekey_spec (g : Inv → Inv) (hg : KeyOnly g) : ∀ (path : List Nat) (t : Inv), HeapTree t →
-    HeapTree (rekey g path t) ∧ (rekey g path t).key = t.key ∧ (rekey g path t).hasQueued = t.hasQueued := by
+/-- The fields of the parent after one level of `increment/decrementExecutingWorkersCount`. -/
+theorem upRekey_fields (legacy : Bool) (g : Inv → Inv) (hg : KeyOnly g) (P c' : Inv) :
+    (upRekey legacy g P c').kids = replaceKid P.kids c' ∧ (upRekey legacy g P c').ops = P.ops ∧
+    (upRekey legacy g P c').queued =
+      (maybeFix (qLess (replaceKid P.kids c')) P.queued.toArray (refIndex P.queued c'.key)).toList ∧
+    (upRekey legacy g P c').key = P.key ∧ (upRekey legacy g P c').parked = P.parked ∧
+    (upRekey legacy g P c').parkedKids =
+      (maybeFix (iLess (replaceKid P.kids c')) P.parkedKids.toArray (refIndex P.parkedKids c'.key)).toList := by
+  unfold upRekey
+  simp only []
+  rw [hg.kids, hg.ops, hg.queued, hg.key, hg.parked, hg.parkedKids]
+  cases legacy with
+  | true => simp [storeKid]
+  | false =>
+    simp only [Bool.false_eq_true, if_false, S.setParkedKids_kids, S.setParkedKids_ops, S.setParkedKids_queued,
+      S.setParkedKids_key, S.setParkedKids_parked, S.setParkedKids_parkedKids]
+    obtain ⟨f1, f2, f3, f4, _, _, f7, _⟩ := updateFirst_fields
+      ((storeKid P c').setQueued (maybeFix (qLess (storeKid P c').kids) P.queued.toArray (refIndex P.queued c'.key)).toList)
+    rw [f1, f2, f3, f4, f7]
+    simp [storeKid]
+
+theorem rekey_spec (legacy : Bool) (g : Inv → Inv) (hg : KeyOnly g) : ∀ (path : List Nat) (t : Inv), HeapTree t →
+    HeapTree (rekey legacy g path t) ∧ (rekey legacy g path t).key = t.key ∧
+      (rekey legacy g path t).hasQueued = t.hasQueued := by
   intro path
   induction path with
   | nil =>
@@ -379,7 +401,7 @@ theorem rekey_spec (g : Inv → Inv) (hg : KeyOnly g) : ∀ (path : List Nat) (t
     intro t ht
     cases hck : t.child k with
     | none =>
-      have : rekey g (k :: p) t = t := by simp only [rekey, updatePath, hck]
+      have : rekey legacy g (k :: p) t = t := by simp only [rekey, updatePath, hck]
       rw [this]; exact ⟨ht, rfl, rfl⟩
     | some c =>
       obtain ⟨hcmem, hckey⟩ := mem_of_child t k c hck
@@ -387,14 +409,11 @@ theorem rekey_spec (g : Inv → Inv) (hg : KeyOnly g) : ∀ (path : List Nat) (t
       obtain ⟨hc't, hc'k, hc'q⟩ := ih c (hq.2 c hcmem)
       unfold rekey at hc't hc'k hc'q ⊢
       rw [updatePath_cons _ _ k p t c hck]
-      generalize updatePath g (upRekey g) p c = c' at hc't hc'k hc'q
+      generalize updatePath g (upRekey legacy g) p c = c' at hc't hc'k hc'q
       have hmq := mem_queued_iff t c hq.1 hcmem
-      unfold upRekey
-      simp only []
       have hN0 : QOk ((storeKid t c').setQueued
-          (maybeFix (qLess (storeKid t c').kids) t.queued.toArray (refIndex t.queued c'.key)).toList) := by
+          (maybeFix (qLess (replaceKid t.kids c')) t.queued.toArray (refIndex t.queued c'.key)).toList) := by
         rw [hc'k]
-        simp only [storeKid, S.setKids_kids]
         cases hidx : refIndex t.queued c.key with
         | none =>
           have : c'.hasQueued = false := by
@@ -406,16 +425,15 @@ theorem rekey_spec (g : Inv → Inv) (hg : KeyOnly g) : ∀ (path : List Nat) (t
         | some idx =>
           have : c'.hasQueued = true := by rw [hc'q]; exact hmq.mp (mem_of_refIndex _ _ _ hidx)
           simpa [maybeFix, storeKid] using qOk_fix t c c' hq.1 hcmem hc'k idx hidx this
-      generalize hres : g _ = res
-      have hrk : res.kids = replaceKid t.kids c' := by rw [← hres, hg.kids]; simp [storeKid]
-      have hro : res.ops = t.ops := by rw [← hres, hg.ops]; simp [storeKid]
+      obtain ⟨hrk, hro, hrq, hrkey, _, _⟩ := upRekey_fields legacy g hg t c'
+      generalize upRekey legacy g t c' = res at hrk hro hrq hrkey
       have hN : QOk res := by
         apply qOk_congr _ res _ _ _ hN0
         · rw [hrk]; simp [storeKid]
-        · rw [← hres, hg.queued]; simp
+        · rw [hrq]; simp
         · rw [hro]; simp [storeKid]
-      refine ⟨heapTree_of_level t c' res ht hc't hN hrk, by rw [← hres, hg.key]; simp [storeKid], ?_⟩
-      exact hasQueued_storeKid t c c' hq.1.keys hcmem hc'k hc'q res hrk hro
+      exact ⟨heapTree_of_level t c' res ht hc't hN hrk, hrkey,
+        hasQueued_storeKid t c c' hq.1.keys hcmem hc'k hc'q res hrk hro⟩
 
 theorem keyOnly_incr (now : Nat) (fresh : Inv → Bool) :
     KeyOnly fun i => (i.setExec (i.exec + if fresh i then 1 else 0)).setStarted now :=
